@@ -601,4 +601,38 @@ func checkDepositCache(p *an.Prog, r *an.Run) {
 		}
 	}
 	r.Check(len(bad) == 0, "deposit-cache", an.FuncName(set), set.Pos(), "every balance event reaches the cache", "%s", strings.Join(bad, "; "))
+
+	// key agreement: the contract's Balance events name the account as Address.Hex() (checksummed), lookups on the chain
+	// accept any spelling (HexToAddress), and request.Verify compares addresses case-insensitively — so a wallet may
+	// spell itself in lower case. Readers and the event writer of the deposit cache must use the same canonical key:
+	// every key handed to the cache from outside it derives from (common.Address).Hex()
+	bc := p.Named("pool/payment", "balanceCache")
+	if bc == nil {
+		return
+	}
+	var kb []string
+	nKeys := 0
+	isHex := func(f *types.Func) bool {
+		return f.Name() == "Hex" && an.RecvNamed(f) != nil && an.RecvNamed(f).Obj().Name() == "Address"
+	}
+	for _, fn := range p.Repo {
+		if p.IsTestFunc(fn) || fn.Pkg == nil || !strings.HasSuffix(fn.Pkg.Pkg.Path(), "/pool/payment") {
+			continue
+		}
+		if fn.Signature.Recv() != nil && namedOf(fn.Signature.Recv().Type()) == bc {
+			continue // the cache's own methods
+		}
+		for _, c := range an.Calls(fn, false) {
+			cal := c.Common().StaticCallee()
+			if cal == nil || cal.Signature.Recv() == nil || namedOf(cal.Signature.Recv().Type()) != bc || (cal.Name() != "Get" && cal.Name() != "Set") || len(c.Common().Args) < 2 {
+				continue
+			}
+			nKeys++
+			if p.DerivesIn(fn, 2, c.Common().Args[1]).CallTo(isHex) == nil {
+				kb = append(kb, an.FuncName(fn)+" hands the deposit cache a key that is not the canonical (Address.Hex()) spelling of the account ("+p.Pos(c.Pos())+"): the Balance events that keep the cache current are keyed by the checksummed spelling, so under any other spelling the pre-settlement deposit stays cached and is paid again")
+			}
+		}
+	}
+	r.Note("deposit-cache key sites examined: %d", nKeys)
+	r.Check(len(kb) == 0, "deposit-cache", "keys", token.NoPos, "cache readers use the events' canonical account spelling", "%s", strings.Join(dedup(kb), "; "))
 }
